@@ -77,3 +77,39 @@ Proof.
     destruct (qtrace c w h iss cred) as [[w1 iss1] cred1]. cbn [fst] in Ew. destruct H as [Hq1 Hv1].
     apply IH; [rewrite Ew; exact Hrest|exact Hq1|exact Hv1].
 Qed.
+
+(* the ledger form across segments *)
+Fixpoint ltrace_cfgs (w : world) (segs : list (config * list op)) (ip : list (Z * Z)) : world * list (Z * Z) :=
+  match segs with
+  | [] => (w, ip)
+  | (c, h) :: r => let '(w', ip') := ltrace c w h ip in ltrace_cfgs w' r ip'
+  end.
+
+Fixpoint segs_ln_ok (w : world) (segs : list (config * list op)) : Prop :=
+  match segs with
+  | [] => True
+  | (c, h) :: r => ln_ok c w h /\ segs_ln_ok (fst (run_history c w h)) r
+  end.
+
+Lemma ltrace_world cfg h : forall w ip, fst (ltrace cfg w h ip) = fst (run_history cfg w h).
+Proof.
+  induction h as [|o r IH]; intros w ip; [reflexivity|]. cbn [ltrace]. rewrite run_history_fst. apply IH.
+Qed.
+
+Theorem no_inflation_ledger_reconf segs : forall w iss ip,
+  segs_ok w segs -> segs_ln_ok w segs -> QInv w iss (map snd ip) -> VI iss w -> LI ip w ->
+  let '(w', ip') := ltrace_cfgs w segs ip in
+  vS w' + ext_out w' (map fst ip') <= vR w' + per_quote (esett w') (d_mq (w_db w')).
+Proof.
+  induction segs as [|[c h] r IH]; intros w iss ip Hok Hln Hq Hv Hl; cbn [ltrace_cfgs].
+  - exact (ledger_bound w iss ip Hq Hv Hl).
+  - destruct Hok as [Hc [Hh [Hu Hrest]]]. destruct Hln as [Hl1 Hlrest].
+    pose proof (qtrace_vi c h w iss (map snd ip) Hc Hh Hu Hq Hv) as H.
+    pose proof (ltrace_qtrace c h w iss (map snd ip) ip eq_refl) as [Ew Ec].
+    pose proof (ltrace_li c h w ip Hl1 Hl) as HL.
+    pose proof (ltrace_world c h w ip) as Ew2.
+    destruct (qtrace c w h iss (map snd ip)) as [[w1 iss1] cred1]. cbn [fst snd] in Ew, Ec.
+    destruct (ltrace c w h ip) as [w2 ip2]. cbn [fst snd] in *. subst w2 cred1.
+    destruct H as [Hq1 Hv1].
+    apply (IH w1 iss1 ip2); [rewrite Ew2; exact Hrest|rewrite Ew2; exact Hlrest|exact Hq1|exact Hv1|exact HL].
+Qed.
